@@ -139,6 +139,147 @@ impl Shapes {
     }
 }
 
+// ------------------------------------------------------------------ structured families
+
+/// Cut-focused family (complete enumeration): `pre, LEFT, [print], CUT, [print], RIGHT` where
+/// LEFT is a multi-solution goal of every node kind (call, disjunctions whose first
+/// alternatives fail, nested groups, list recursion, not + call), RIGHT rejects the first
+/// solution(s) of LEFT and would accept a later one, with and without later clauses, asked
+/// directly and through callers that backtrack into the call.
+pub struct CutFamily { lefts: Vec<G>, rights: Vec<Option<G>>, laters: Vec<Vec<Clause>>, queries: Vec<(String, Vec<T>)>, with_print: bool }
+
+impl CutFamily {
+    pub fn new(with_print: bool) -> CutFamily {
+        let xv = x(); let y = var("$Y");
+        let gen = |t: &T| call("gen", vec![t.clone()]);
+        let none = |t: &T| call("none", vec![t.clone()]);
+        let eq = |a: &T, k: i64| G::Unify(a.clone(), T::Int(k));
+        let lefts = vec![
+            gen(&xv),
+            G::Or(vec![none(&xv), gen(&xv)]),
+            G::Or(vec![gen(&xv), eq(&xv, 7)]),
+            G::Or(vec![eq(&xv, 0), gen(&xv)]),
+            G::Or(vec![none(&xv), none(&xv), gen(&xv)]),
+            G::Or(vec![G::And(vec![none(&xv), gen(&y)]), gen(&xv)]),
+            call("mem", vec![xv.clone(), list(vec![T::Int(1), T::Int(2), T::Int(3)])]),
+            G::And(vec![gen(&y), G::Unify(xv.clone(), y.clone())]),
+            G::And(vec![G::Not(Box::new(none(&T::Int(1)))), gen(&xv)]),
+            G::Or(vec![eq(&xv, 1), eq(&xv, 2), eq(&xv, 3)]),
+            G::Or(vec![G::Or(vec![none(&xv), eq(&xv, 1)]), gen(&xv)]),
+            call("two", vec![xv.clone()]),
+        ];
+        let rights = vec![
+            None,
+            Some(G::Cmp(Cmp::Eq, xv.clone(), T::Int(2))),
+            Some(G::Cmp(Cmp::Gt, xv.clone(), T::Int(1))),
+            Some(G::Unify(xv.clone(), T::Int(2))),
+            Some(gen(&xv)),
+            Some(G::Fail),
+            Some(G::Or(vec![G::Cmp(Cmp::Eq, xv.clone(), T::Int(3)), G::Cmp(Cmp::Eq, xv.clone(), T::Int(2))])),
+            Some(G::And(vec![gen(&y), G::Cmp(Cmp::Gt, y.clone(), xv.clone())])),
+        ];
+        let laters = vec![vec![], vec![fact("p", vec![T::Int(8)])], vec![rule("p", vec![xv.clone()], G::Unify(xv.clone(), T::Int(9))), fact("p", vec![T::Int(2)])]];
+        let queries = vec![("p".into(), vec![xv.clone()]), ("p".into(), vec![T::Int(2)]), ("r".into(), vec![xv.clone(), y.clone()]), ("s".into(), vec![xv.clone(), y.clone()])];
+        CutFamily { lefts, rights, laters, queries, with_print }
+    }
+    fn dims(&self) -> [usize; 7] { [self.lefts.len(), 2, 3, self.rights.len(), self.laters.len(), self.queries.len(), if self.with_print { 3 } else { 1 }] }
+    pub fn total(&self) -> u64 { self.dims().iter().map(|d| *d as u64).product() }
+    pub fn get(&self, idx: u64) -> Case {
+        let d = self.dims();
+        let mut i = idx as usize;
+        let mut take = |n: usize| { let k = i % n; i /= n; k };
+        let (li, pre, cutform, ri, la, qi, pr) = (take(d[0]), take(d[1]), take(d[2]), take(d[3]), take(d[4]), take(d[5]), take(d[6]));
+        let xv = x();
+        let mut body: Vec<G> = vec![];
+        if pre == 1 { body.push(call("gen", vec![var("$W")])); }
+        let left = self.lefts[li].clone();
+        let prt = || G::Print(vec![xv.clone()]);
+        match cutform {
+            // plain: LEFT, !, RIGHT
+            0 => { body.push(left); if pr == 1 { body.push(prt()); } body.push(G::Cut); if pr == 2 { body.push(prt()); } }
+            // the cut closes a parenthesised group: (LEFT, !), RIGHT
+            1 => { let mut g = vec![left]; if pr == 1 { g.push(prt()); } g.push(G::Cut); body.push(G::And(g)); if pr == 2 { body.push(prt()); } }
+            // the cut is the second alternative's first goal: (none ; (!, LEFT)) -- nothing to its left but the choice itself
+            _ => { body.push(G::Or(vec![call("none", vec![xv.clone()]), G::And(vec![left, G::Cut])])); if pr >= 1 { body.push(prt()); } }
+        }
+        if let Some(r) = &self.rights[ri] { body.push(r.clone()); }
+        let mut clauses = vec![
+            fact("gen", vec![T::Int(1)]), fact("gen", vec![T::Int(2)]), fact("gen", vec![T::Int(3)]),
+            fact("none", vec![T::Int(99)]),
+            fact("two", vec![T::Int(1)]), rule("two", vec![xv.clone()], G::Or(vec![G::Unify(xv.clone(), T::Int(2)), G::Unify(xv.clone(), T::Int(3))])),
+            fact("mem", vec![xv.clone(), mk_list(vec![xv.clone()], Some(var("$Rest")))]),
+            rule("mem", vec![xv.clone(), mk_list(vec![var("$Y")], Some(var("$T")))], call("mem", vec![xv.clone(), var("$T")])),
+            rule("r", vec![xv.clone(), var("$Y")], G::And(vec![call("gen", vec![var("$Y")]), call("p", vec![xv.clone()])])),
+            rule("s", vec![xv.clone(), var("$Y")], G::And(vec![call("p", vec![xv.clone()]), call("gen", vec![var("$Y")])])),
+            rule("p", vec![xv.clone()], if body.len() == 1 { body.pop().unwrap() } else { G::And(body) }),
+        ];
+        clauses.extend(self.laters[la].iter().cloned());
+        let (qname, qargs) = self.queries[qi].clone();
+        Case { prog: Program { clauses }, qname, qargs }
+    }
+}
+
+/// not-focused family (complete enumeration): `PRE, not(G), POST` with G over predicates whose
+/// facts are ground, non-ground (`$_`, repeated variables, list patterns) or numerically
+/// look-alike (1 vs 1.0); G ground, partly bound or unbound at the call; G a call, a
+/// conjunction, a disjunction, a nested not, a unification or a comparison.
+pub struct NotFamily { pres: Vec<Option<G>>, gs: Vec<G>, posts: Vec<Option<G>>, queries: Vec<(String, Vec<T>)> }
+
+impl NotFamily {
+    pub fn new() -> NotFamily {
+        let xv = x(); let y = var("$Y"); let z = var("$Z");
+        let c = |n: &str, a: Vec<T>| call(n, a);
+        let i = |k: i64| T::Int(k);
+        let pres = vec![None, Some(c("gen", vec![xv.clone()])), Some(G::Unify(xv.clone(), i(2))), Some(G::Unify(xv.clone(), T::Float(1.0))), Some(G::Unify(xv.clone(), atom("a")))];
+        let gs = vec![
+            c("gen", vec![xv.clone()]), c("none", vec![xv.clone()]),
+            c("same", vec![xv.clone(), xv.clone()]), c("same", vec![xv.clone(), i(2)]), c("same", vec![i(1), i(2)]), c("same", vec![i(2), i(2)]),
+            c("blocked", vec![xv.clone(), atom("vault")]), c("blocked", vec![atom("a"), atom("safe")]), c("blocked", vec![atom("a"), atom("vault")]),
+            c("pt", vec![xv.clone(), i(5)]), c("pt", vec![i(1), i(5)]), c("pt", vec![i(2), i(5)]),
+            c("pair", vec![xv.clone(), list(vec![i(2), i(3)])]), c("pair", vec![i(2), list(vec![i(2)])]), c("pair", vec![i(2), list(vec![i(3)])]),
+            c("val", vec![T::Float(1.0)]), c("val", vec![i(1)]), c("val", vec![xv.clone()]),
+            G::And(vec![c("gen", vec![xv.clone()]), G::Cmp(Cmp::Gt, xv.clone(), i(2))]),
+            G::Or(vec![c("none", vec![xv.clone()]), c("gen", vec![xv.clone()])]),
+            G::Not(Box::new(c("gen", vec![xv.clone()]))),
+            G::Unify(xv.clone(), i(2)), G::Cmp(Cmp::Eq, xv.clone(), i(2)),
+            c("gen", vec![z.clone()]), c("same", vec![xv.clone(), z.clone()]),
+            c("wrap", vec![cplx("f", vec![xv.clone()])]), c("wrap", vec![cplx("f", vec![i(7)])]),
+        ];
+        let posts = vec![None, Some(c("gen", vec![y.clone()])), Some(G::Unify(y.clone(), xv.clone())), Some(c("same", vec![xv.clone(), y.clone()]))];
+        let queries = vec![("p".into(), vec![xv.clone(), y.clone()]), ("p".into(), vec![i(2), y.clone()]), ("p".into(), vec![i(1), y.clone()]), ("rr".into(), vec![xv.clone(), y.clone()])];
+        NotFamily { pres, gs, posts, queries }
+    }
+    pub fn total(&self) -> u64 { (self.pres.len() * self.gs.len() * self.posts.len() * self.queries.len() * 2) as u64 }
+    pub fn get(&self, idx: u64) -> Case {
+        let mut i = idx as usize;
+        let mut take = |n: usize| { let k = i % n; i /= n; k };
+        let (gi, pi, po, qi, twice) = (take(self.gs.len()), take(self.pres.len()), take(self.posts.len()), take(self.queries.len()), take(2));
+        let xv = x(); let y = var("$Y");
+        let mut body: Vec<G> = vec![];
+        if let Some(g) = &self.pres[pi] { body.push(g.clone()); }
+        body.push(G::Not(Box::new(self.gs[gi].clone())));
+        // the same not() goal a second time in the body (an answer remembered from the first
+        // execution must not be reused under different bindings)
+        if twice == 1 { body.push(G::Or(vec![G::Unify(var("$V"), T::Int(0)), G::Not(Box::new(self.gs[gi].clone()))])); }
+        if let Some(g) = &self.posts[po] { body.push(g.clone()); }
+        let a = var("$A");
+        let clauses = vec![
+            fact("gen", vec![T::Int(1)]), fact("gen", vec![T::Int(2)]), fact("gen", vec![T::Int(3)]),
+            fact("none", vec![T::Int(99)]),
+            fact("same", vec![a.clone(), a.clone()]),
+            fact("blocked", vec![T::Anon, atom("vault")]),
+            fact("pt", vec![T::Int(1), y.clone()]),
+            fact("pair", vec![a.clone(), mk_list(vec![a.clone()], Some(var("$T")))]),
+            fact("val", vec![T::Int(1)]),
+            fact("wrap", vec![cplx("f", vec![T::Anon])]),
+            rule("rr", vec![xv.clone(), y.clone()], G::And(vec![call("gen", vec![xv.clone()]), call("p", vec![xv.clone(), y.clone()])])),
+            rule("p", vec![xv.clone(), y.clone()], if body.len() == 1 { body.pop().unwrap() } else { G::And(body) }),
+        ];
+        let (qname, qargs) = self.queries[qi].clone();
+        Case { prog: Program { clauses }, qname, qargs }
+    }
+}
+
 // ------------------------------------------------------------------ random programs
 
 const CONSTS: [&str; 3] = ["a", "b", "c"];
